@@ -1019,7 +1019,7 @@ def run_device(rep, prop, with_witness=True):
             if max0 == 64 or prop == "C07":
                 dist = (QUICK_DISTANCES if max0 == 64 else (2, 4, 9)) if quick else range(2, 25)
                 for name, sc in aligned_scripts(prop, desc_len, max0, dist):
-                    if max0 != 64 and ("stalls=" in name or " gap@" in name):
+                    if max0 != 64 and ("stalls=" in name or " gap@" in name or " +foreign" in name or " +sof" in name):
                         continue
                     tr = runner.run(sc, gap_prob=0.0, stall_prob=0.0)
                     items.append((tr, {"dut": label, "origin": "aligned", "case": name}))
@@ -1046,7 +1046,7 @@ def unit_decoder(rep, prop="C06"):
         cfg = trace_cfg(None, 64, unit=True, min_gap=min_gap, max_gap=max_gap)
         label = "USBSetupDecoder(standalone, %s, 60 MHz)" % name
         items = []
-        for i in range(20 if quick else 200):
+        for i in range(12 if quick else 200):
             g = Gen(rng, {}, 64, bulk=False)
             for _ in range(rng.randint(2, 6)):
                 s8 = [rng.randrange(256) for _ in range(8)]
@@ -1065,7 +1065,7 @@ def unit_decoder(rep, prop="C06"):
         for wname, sc in witness_scripts("C06", {}):
             tr = runner.run(sc)
             items.append((tr, {"dut": label, "origin": "witness", "witness": wname}))
-        for cname, sc in aligned_scripts("C06", {}, 64, (2, 5, 11)):
+        for cname, sc in aligned_scripts("C06", {}, 64, (2, 7) if quick else (2, 3, 5, 7, 11, 16)):
             if cname.startswith(("runt-", "trail-", "bad-crc", "back-to-back", "setup-data gap")):
                 tr = runner.run(sc)
                 items.append((tr, {"dut": label, "origin": "aligned", "case": cname}))
